@@ -148,15 +148,25 @@ def clientMetadata (res : MResponse) : UMetadata :=
 def makeBrokers (bm : List (Int × UBroker)) (ids : List Int) : List UBroker :=
   ids.map fun id => match bm.lookup id with | some b => b | none => { UBroker.zero with id := id }
 
-/-- conn.go readTopicMetadatav1/v6 for a connection without a topic (`c.topic == ""`): `none` = the first topic
-error is returned -/
-def readPartitions (res : MResponse) : Except Int (List UPartition) :=
-  let bm := brokerMap res.brokers
+/-- conn.go ReadPartitions: which topics are asked for — the arguments, else the connection's topic, else all
+(`none` = a NULL array on the wire) -/
+def readPartitionsTopics (connTopic : String) (args : List String) : Option (List String) :=
+  if args.length == 0 then (if connTopic.length != 0 then some [connTopic] else none) else some args
+
+/-- the topic errors that concern a connection: its own topic's, or any topic's when it has none
+(`t.TopicErrorCode != 0 && (c.topic == "" || t.TopicName == c.topic)`) -/
+def concerns (connTopic : String) (t : MTopic) : Bool := t.error != 0 && (connTopic == "" || t.name == connTopic)
+
+def convPartition (bm : List (Int × UBroker)) (t : MTopic) (p : MPartition) : UPartition :=
+  { topic := t.name, id := p.index, leader := lookupD bm p.leader UBroker.zero
+    replicas := makeBrokers bm p.replicas, isr := makeBrokers bm p.isr, error := 0 }
+
+/-- conn.go readTopicMetadatav1/v6: a topic error is reported (and ends the call) only for the connection's own
+topic, or for any topic when the connection has none; `Except.error` carries the Kafka error code -/
+def readPartitions (connTopic : String) (res : MResponse) : Except Int (List UPartition) :=
   res.topics.foldlM (fun acc t =>
-    if t.error != 0 then .error t.error
-    else .ok (acc ++ t.partitions.map fun p =>
-      { topic := t.name, id := p.index, leader := lookupD bm p.leader UBroker.zero
-        replicas := makeBrokers bm p.replicas, isr := makeBrokers bm p.isr, error := 0 })) []
+    if concerns connTopic t then .error t.error
+    else .ok (acc ++ t.partitions.map (convPartition (brokerMap res.brokers) t))) []
 
 /-! ### ConsumerOffsets -/
 
